@@ -8,6 +8,7 @@ Oracle: spec/Config.tla (Effective / Accepts / FinalPort, and the start-up seque
                  the monitors of Config.tla.
 This module only moves files between TLC and the rig and classifies the disagreements they report.
 """
+import fcntl
 import hashlib
 import json
 import os
@@ -22,6 +23,7 @@ RIG = os.path.join(BIN, "cfg_rig")
 SITE_CFG = "teos/src/config.rs"
 SITE_MAIN = "teos/src/main.rs"
 TEMPLATE = os.path.join(REPO, "teos", "src", "conf_template.toml")
+PORTS_LOCK = "/tmp/verif-C20-loopback-ports.lock"   # the binary stage listens on fixed loopback ports: one run at a time
 MAX_SIGNATURES = 10      # distinct disagreement signatures turned into VIOLATION lines per stage (all are counted)
 
 DEVIATIONS = ["oneshot_or", "file_over_cli", "port_forced", "auth_any", "auth_partial", "net_any", "verify_before_patch"]
@@ -207,15 +209,29 @@ def run_cases(wd, meta_path, cases_path, verdict, stats):
 
 
 def run_teosd(wd, teosd, meta_path, bin_path, verdict, stats):
-    res = rig(["teosd", teosd, meta_path, bin_path, wd])
+    # bitcoind's default ports (and the two explicit ones of MC_Config) are machine-wide: concurrent runs of this stage
+    # take turns (the rig additionally ignores connections that carry another run's credentials marker)
+    with open(PORTS_LOCK, "a") as lk:
+        t_wait = time.time()
+        while True:
+            try:
+                fcntl.flock(lk, fcntl.LOCK_EX | fcntl.LOCK_NB)
+                break
+            except OSError:
+                if time.time() - t_wait > 2400:
+                    raise ToolError("another run holds %s for more than 40 minutes" % PORTS_LOCK)
+                time.sleep(1.0)
+        stats["ports_lock_wait_s"] = round(time.time() - t_wait, 1)
+        res = rig(["teosd", teosd, meta_path, bin_path, wd])
     if res["cases"] != stats["families"].get("bin", 0):
         raise ToolError("cfg_rig ran %d of %d binary cases" % (res["cases"], stats["families"].get("bin", 0)))
     if res["running"] and res["unobservable"] == res["running"]:
         raise ToolError("no listener could be bound where teosd was expected to look for bitcoind: %s" % res["unbound"][:6])
     classify_rig(res, verdict, SITE_MAIN, "teosd-binary", "teosd", meta_path)
-    stats["teosd"] = {k: res[k] for k in ("cases", "comparisons", "running", "refused", "mismatching_cases", "signatures",
+    stats["teosd"] = {k: res.get(k) for k in ("cases", "comparisons", "running", "refused", "mismatching_cases", "signatures",
                                           "process_runs", "unobservable", "unbound", "listeners",
-                                          "reported_values_compared")}
+                                          "reported_values_compared", "foreign_connections_ignored")}
+    stats["teosd"]["ports_lock_wait_s"] = stats.pop("ports_lock_wait_s", 0)
     return res
 
 
@@ -283,26 +299,57 @@ def template_trace(wd, meta_path, tpl, text, verdict, stats):
     judge_trace(wd, tr, verdict, stats, "template")
 
 
-def binding_selftest(wd, meta_path):
-    """A corrupted observation and a flipped verdict must be tagged by Trace_Config (else the validator is blind)."""
-    tr = os.path.join(wd, "selftest.ndjson")
-    rig(["random", meta_path, "40", "4242", tr, wd])
-    lines = open(tr).read().splitlines()
-    k = next(i for i, ln in enumerate(lines) if '"verdict":"running"' in ln)
-    ev = json.loads(lines[k])
-    ev["obs"]["patched"]["api_port"] = (ev["obs"]["patched"]["api_port"] % 60000) + 1
-    ev["obs"]["final"]["btc_rpc_port"] = (ev["obs"]["final"]["btc_rpc_port"] % 60000) + 1
-    j = next(i for i, ln in enumerate(lines) if '"verdict":"refused"' in ln)
-    ev2 = json.loads(lines[j])
-    ev2["obs"]["verdict"] = "running"
-    lines[k] = json.dumps(ev)
-    lines[j] = json.dumps(ev2)
-    open(tr, "w").write("\n".join(lines + ['{"ev":"end"}']) + "\n")
+def binding_selftest(wd, cases_path):
+    """Independent of the code under test: events built from the specification's own expectations must be accepted by
+    Trace_Config without a tag, and a corrupted setting / port / verdict must be tagged exactly where it was corrupted
+    (otherwise the validator is blind)."""
+    picked = []
+    want_kinds = [("group", True), ("group", False), ("plain", True), ("switch", True), ("switch", False)]
+    with open(cases_path) as f:
+        for ln in f:
+            c = json.loads(ln)
+            key = (c["fam"], c["exp"]["accept"])
+            if key in want_kinds and c["exp"]["port_explicit"] is False:
+                want_kinds.remove(key)
+                picked.append(c)
+            if not want_kinds:
+                break
+    if len(picked) < 4:
+        raise ToolError("binding self-test: not enough cases to build a fixture from")
+
+    def event(c):
+        e = c["exp"]
+        patched = dict(e["settings"], btc_rpc_port=e["port"])
+        final = dict(patched)
+        if e["accept"]:
+            final["btc_rpc_port"] = e["final_port"]
+            final["btc_network"] = sorted(e["final_network"])[0]
+        file = c["file"] if isinstance(c["file"], dict) else {}
+        cli = c["cli"] if isinstance(c["cli"], dict) else {}
+        return {"ev": "case", "file": file, "cli": cli,
+                "obs": {"patched": patched, "verdict": "running" if e["accept"] else "refused", "final": final}}
+
+    clean = [event(c) for c in picked]
+    tr = os.path.join(wd, "selftest_clean.ndjson")
+    open(tr, "w").write("\n".join(json.dumps(e) for e in clean + [{"ev": "end"}]) + "\n")
+    tags, _, _ = validate_trace("Trace_Config", "Trace_Config.cfg", tr, wd)
+    if tags:
+        raise ToolError("binding self-test: events built from Config.tla's own expectations are tagged: %r" % tags[:5])
+    bad = json.loads(json.dumps(clean))
+    k = next(i for i, e in enumerate(bad) if e["obs"]["verdict"] == "running")
+    j = next(i for i, e in enumerate(bad) if e["obs"]["verdict"] == "refused")
+    bad[k]["obs"]["patched"]["api_port"] += 1
+    bad[k]["obs"]["final"]["btc_rpc_port"] += 1
+    bad[k]["obs"]["final"]["overwrite_key"] = not bad[k]["obs"]["final"]["overwrite_key"]
+    bad[j]["obs"]["verdict"] = "running"
+    tr = os.path.join(wd, "selftest_corrupt.ndjson")
+    open(tr, "w").write("\n".join(json.dumps(e) for e in bad + [{"ev": "end"}]) + "\n")
     tags, _, _ = validate_trace("Trace_Config", "Trace_Config.cfg", tr, wd)
     got = {(t[0], t[2]) for t in tags}
-    want = {(k + 1, "patched:api_port"), (k + 1, "final:btc_rpc_port"), (j + 1, "accepted-unsafe")}
-    if not want <= got:
-        raise ToolError("binding self-test failed: corrupted trace produced %r, expected at least %r" % (sorted(got), sorted(want)))
+    want = {(k + 1, "patched:api_port"), (k + 1, "final:btc_rpc_port"), (k + 1, "final:overwrite_key"),
+            (j + 1, "accepted-unsafe")}
+    if got != want:
+        raise ToolError("binding self-test failed: corrupted trace produced %r, expected %r" % (sorted(got), sorted(want)))
     return len(want)
 
 
@@ -365,14 +412,29 @@ def main(tier, replay=None):
         return 1 if nviol else 0
 
     meta, meta_path, cases_path, bin_path = enumerate_cases(wd, tier, stats)
+    stats["selftest_corruptions_detected"] = binding_selftest(wd, cases_path)
     tpl, text = check_documentation(meta, verdict, stats)
     run_cases(wd, meta_path, cases_path, verdict, stats)
-    run_teosd(wd, teosd, meta_path, bin_path, verdict, stats)
-    stats["selftest_corruptions_detected"] = binding_selftest(wd, meta_path)
-    template_trace(wd, meta_path, tpl, text, verdict, stats)
-    random_traces(wd, meta_path, [2000, 2000] if tier == "quick" else [5000] * 6, verdict, stats)
+    # A tool problem in a later stage must not hide what an earlier stage has found: it is reported (exit 2) only when
+    # no stage found a disagreement.
+    deferred = []
+    stages = [
+        ("teosd binary", lambda: run_teosd(wd, teosd, meta_path, bin_path, verdict, stats)),
+        ("template", lambda: template_trace(wd, meta_path, tpl, text, verdict, stats)),
+        ("random traces", lambda: random_traces(wd, meta_path, [2000, 2000] if tier == "quick" else [5000] * 6, verdict,
+                                                stats)),
+    ]
     if tier == "thorough":
-        deviation_runs(wd, stats)
+        stages.append(("deviations", lambda: deviation_runs(wd, stats)))
+    for name, fn in stages:
+        try:
+            fn()
+        except ToolError as e:
+            log("stage '%s' could not be completed: %s" % (name, e))
+            deferred.append("%s: %s" % (name, e))
+    if deferred and not verdict.violations:
+        raise ToolError("; ".join(deferred))
+    stats.setdefault("teosd", {"cases": 0, "skipped": deferred})
 
     nviol = verdict.finish()
     executed = stats["inproc"]["cases"] + stats["teosd"]["cases"]
@@ -409,6 +471,7 @@ def main(tier, replay=None):
         "template_keys_unknown_to_spec": stats.get("template_keys_unknown_to_spec", []),
         "selftest_corruptions_detected": stats["selftest_corruptions_detected"],
         "deviations_caught_by": stats.get("deviations_caught_by", {}),
+        "stages_not_completed": deferred,
         "known_findings_hit": verdict.known_hits,
         "samples": stats["samples"][:6],
     }, [
